@@ -675,3 +675,9 @@ func VerifNumAckHandlers(m *Memberlist) int {
 
 // VerifDeschedule stops the background tickers (probe, gossip, push/pull) of a running node.
 func VerifDeschedule(m *Memberlist) { m.deschedule() }
+
+// VerifNextSeqNo wraps nextSeqNo (the sequence number a new probe is registered under).
+func VerifNextSeqNo(m *Memberlist) uint32 { return m.nextSeqNo() }
+
+// VerifNextIncarnation wraps nextIncarnation.
+func VerifNextIncarnation(m *Memberlist) uint32 { return m.nextIncarnation() }
